@@ -1186,4 +1186,136 @@ Proof.
   apply Qplus_le_compat; [apply U12|apply U23]; apply in_map; exact Hk.
 Qed.
 
+(* ---------- the distribution in terms of [wtof_rk] when every ballot has a ranking ---------- *)
+
+Lemma ndist_wtof_rk : forall p r, Forall (fun b => rk b <> []) (ballots p) ->
+  ndist p r == wtof_rk cand ceqb r (ballots p) / total_wt (ballots p).
+Proof.
+  intros p r H. unfold MetricSpec.ndist, MetricSpec.rwt, EditSpec.wtof_rk.
+  rewrite (filter_ext_in _ (fun b => req r (rke b)) (fun b => req r (rk b))); [reflexivity|].
+  intros b Hb. rewrite Forall_forall in H. specialize (H b Hb). rewrite rke_rke'.
+  destruct (rk b); [contradiction H; reflexivity|reflexivity].
+Qed.
+
+(* ---------- L6 (p = 2): Cauchy-Schwarz and the squared triangle inequality ---------- *)
+
+Section CauchySchwarz.
+Variable A : Type.
+Variables f g : A -> Q.
+Variable K : list A.
+
+Let SA := qsum (map (fun k => f k * f k) K).
+Let SB := qsum (map (fun k => g k * g k) K).
+Let SC := qsum (map (fun k => f k * g k) K).
+
+Lemma quad_expand : forall t,
+  qsum (map (fun k => (f k * t + g k) * (f k * t + g k)) K) == t * t * SA + 2 * t * SC + SB.
+Proof.
+  intros t. unfold SA, SB, SC. clear SA SB SC. induction K as [|k l IH]; cbn [map].
+  - rewrite !qsum_nil. ring.
+  - rewrite !qsum_cons, IH. ring.
+Qed.
+
+Lemma quad_nonneg : forall t, 0 <= t * t * SA + 2 * t * SC + SB.
+Proof.
+  intros t. rewrite <- quad_expand. apply qsum_nonneg. apply Forall_forall. intros x Hx.
+  apply in_map_iff in Hx. destruct Hx as [k [<- _]].
+  destruct (Qlt_le_dec (f k * t + g k) 0) as [Hneg|Hpos].
+  - setoid_replace ((f k * t + g k) * (f k * t + g k))
+      with ((- (f k * t + g k)) * (- (f k * t + g k))) by ring.
+    apply Qmult_le_0_compat; lra.
+  - apply Qmult_le_0_compat; exact Hpos.
+Qed.
+
+Lemma SA_nonneg : 0 <= SA.
+Proof.
+  pose proof (quad_nonneg 1) as H1. pose proof (quad_nonneg (-1)) as H2.
+  unfold SA. apply qsum_nonneg. apply Forall_forall. intros x Hx.
+  apply in_map_iff in Hx. destruct Hx as [k [<- _]].
+  destruct (Qlt_le_dec (f k) 0) as [Hneg|Hpos].
+  - setoid_replace (f k * f k) with ((- f k) * (- f k)) by ring. apply Qmult_le_0_compat; lra.
+  - apply Qmult_le_0_compat; exact Hpos.
+Qed.
+
+Theorem cauchy_schwarz : SC * SC <= SA * SB.
+Proof.
+  destruct (Qeq_dec SA 0) as [Hz|Hnz].
+  - assert (Hc : SC == 0).
+    { destruct (Qeq_dec SC 0) as [Hc|Hc]; [exact Hc|]. exfalso.
+      pose proof (quad_nonneg (- (SB + 1) / (2 * SC))) as H. rewrite Hz in H.
+      setoid_replace (- (SB + 1) / (2 * SC) * (- (SB + 1) / (2 * SC)) * 0
+                      + 2 * (- (SB + 1) / (2 * SC)) * SC + SB) with (- (1)) in H by (field; exact Hc).
+      lra. }
+    rewrite Hc, Hz. lra.
+  - assert (Hpos : 0 < SA).
+    { pose proof SA_nonneg as H. destruct (Qlt_le_dec 0 SA) as [Hp|Hn]; [exact Hp|].
+      exfalso. apply Hnz. lra. }
+    pose proof (quad_nonneg (- SC / SA)) as H.
+    setoid_replace (- SC / SA * (- SC / SA) * SA + 2 * (- SC / SA) * SC + SB)
+      with (SB - SC * SC / SA) in H by (field; exact Hnz).
+    assert (H' : SC * SC / SA <= SB) by lra.
+    setoid_replace (SC * SC) with (SC * SC / SA * SA) by (field; exact Hnz).
+    rewrite (Qmult_comm SA SB). apply Qmult_le_compat_r; [exact H'|lra].
+Qed.
+
+End CauchySchwarz.
+
+Lemma Qpow_2 : forall x, Qpow x 2 == x * x.
+Proof. intros x. cbn [Qpow]. ring. Qed.
+
+Lemma Qsq_le : forall x y, 0 <= x -> x <= y -> x * x <= y * y.
+Proof.
+  intros x y Hx Hxy. apply Qle_trans with (x * y).
+  - setoid_replace (x * y) with (y * x) by ring. apply Qmult_le_compat_r; assumption.
+  - apply Qmult_le_compat_r; [exact Hxy|lra].
+Qed.
+
+Lemma psum_2 : forall p1 p2 ks,
+  psum p1 p2 2 ks == qsum (map (fun r => absdiff p1 p2 r * absdiff p1 p2 r) ks).
+Proof. intros p1 p2 ks. unfold psum. apply qsum_map_ext_in. intros r _. apply Qpow_2. Qed.
+
+(* sqrt S13 <= sqrt S12 + sqrt S23, squared twice so that no root is needed *)
+Theorem triangle_p2 : forall p1 p2 p3,
+  0 < total_wt (ballots p1) -> 0 < total_wt (ballots p2) -> 0 < total_wt (ballots p3) ->
+  exists s13 s12 s23,
+    lp_sum p1 p3 2 = inl s13 /\ lp_sum p1 p2 2 = inl s12 /\ lp_sum p2 p3 2 = inl s23 /\
+    (s12 + s23 <= s13 -> (s13 - s12 - s23) * (s13 - s12 - s23) <= 4 * s12 * s23).
+Proof.
+  intros p1 p2 p3 H1 H2 H3.
+  pose proof (pos_not_degenerate p1 H1) as D1. pose proof (pos_not_degenerate p2 H2) as D2.
+  pose proof (pos_not_degenerate p3 H3) as D3.
+  assert (Hn : (1 <= 2)%nat) by lia.
+  destruct (lp_sum_ok p1 p3 2 D1 D3 Hn) as [s13 E13].
+  destruct (lp_sum_ok p1 p2 2 D1 D2 Hn) as [s12 E12].
+  destruct (lp_sum_ok p2 p3 2 D2 D3 Hn) as [s23 E23].
+  exists s13, s12, s23. repeat (split; [assumption|]).
+  destruct (common_keys [p1; p2; p3]) as [K [Hd Hc]].
+  assert (C1 : covers K p1) by (apply Hc; cbn; auto).
+  assert (C2 : covers K p2) by (apply Hc; cbn; auto).
+  assert (C3 : covers K p3) by (apply Hc; cbn; auto).
+  rewrite (lp_sum_any_keys p1 p3 2 s13 E13 K Hd C1 C3), (lp_sum_any_keys p1 p2 2 s12 E12 K Hd C1 C2),
+          (lp_sum_any_keys p2 p3 2 s23 E23 K Hd C2 C3).
+  rewrite !psum_2.
+  set (a := absdiff p1 p2). set (b := absdiff p2 p3). set (c := absdiff p1 p3).
+  set (S13 := qsum (map (fun r => c r * c r) K)).
+  set (S12 := qsum (map (fun r => a r * a r) K)).
+  set (S23 := qsum (map (fun r => b r * b r) K)).
+  set (SC := qsum (map (fun r => a r * b r) K)).
+  assert (Hup : S13 <= S12 + 2 * SC + S23).
+  { pose proof (quad_expand ranking a b K 1) as Hq. fold S12 S23 SC in Hq.
+    setoid_replace (S12 + 2 * SC + S23) with (1 * 1 * S12 + 2 * 1 * SC + S23) by ring.
+    rewrite <- Hq. unfold S13. apply qsum_le. intros r _. apply Qsq_le.
+    - apply absdiff_nonneg.
+    - pose proof (absdiff_triangle p1 p2 p3 r) as Ht. fold a b c in Ht. lra. }
+  assert (Hsc : 0 <= SC).
+  { unfold SC. apply qsum_nonneg. apply Forall_forall. intros x Hx. apply in_map_iff in Hx.
+    destruct Hx as [r [<- _]]. apply Qmult_le_0_compat; apply absdiff_nonneg. }
+  pose proof (cauchy_schwarz ranking a b K) as Hcs. fold S12 S23 SC in Hcs.
+  intros Hge.
+  assert (HD : (S13 - S12 - S23) * (S13 - S12 - S23) <= (2 * SC) * (2 * SC)).
+  { apply Qsq_le; lra. }
+  setoid_replace (2 * SC * (2 * SC)) with (4 * (SC * SC)) in HD by ring.
+  setoid_replace (4 * S12 * S23) with (4 * (S12 * S23)) by ring. lra.
+Qed.
+
 End WithCand.
